@@ -265,6 +265,7 @@ def compare(outdir, max_report=20, nontrivial=None, distinct_key=None):
     mism = []
     nmism = 0
     model_errors = 0
+    undecided = 0
     distinct = set()
     samples = []
     for c in sorted(glob.glob(os.path.join(outdir, "cases.*.txt"))):
@@ -281,6 +282,9 @@ def compare(outdir, max_report=20, nontrivial=None, distinct_key=None):
                     distinct.add(hashlib.blake2b(dk.encode(), digest_size=8).digest())
                 if len(samples) < 3 and (total % 9973 == 1 or total in (2, 3)):
                     samples.append({"case": cbody[:400], "result": li.rstrip("\n").partition(" ")[2][:400]})
+                if "UNDECIDED" in lm:
+                    undecided += 1
+                    continue
                 if li != lm:
                     nmism += 1
                     if "MODEL-ERROR" in lm:
@@ -290,7 +294,7 @@ def compare(outdir, max_report=20, nontrivial=None, distinct_key=None):
                                      "impl": li.rstrip("\n").partition(" ")[2],
                                      "model": lm.rstrip("\n").partition(" ")[2]})
     return {"total": total, "nmismatch": nmism, "mismatches": mism, "model_errors": model_errors,
-            "distinct": len(distinct), "samples": samples}
+            "distinct": len(distinct), "samples": samples, "undecided": undecided}
 
 
 # ----------------------------------------------------------------------------------------
